@@ -64,8 +64,20 @@ ADF11_SHIFT = {"adf11scd": -1, "adf11plt": -1, "adf11acd": 0, "adf11prb": 0, "ad
 
 SPECIES_NAMES = ["hydrogen", "deuterium", "tritium", "helium", "helium3", "carbon", "neon"]
 TRANSITIONS = [(3, 2), ("3", "2"), (4, 2), ("2P", "1s"), ("2p", "1S"), ("2s1 2p1 3P4.0", "2s2 1S0.0"),
-               ("2S1 2P1 3p4.0", "2s2 1s0.0"), (2, 3), ("4", 2)]
-SPECIAL = [0.0, -0.0, 5e-324, 1.7976931348623157e308, float("inf"), float("-inf"), float("nan"), 1e-300, 0.1, 1 / 3]
+               ("2S1 2P1 3p4.0", "2s2 1s0.0"), (2, 3), ("4", 2),
+               # two- and three-digit levels (text fields: 9/10/11, 99/100/101)
+               (10, 9), ("10", "9"), (11, 10), (9, 8), (100, 99), (101, 100)]
+_ULP = [np.nextafter(1.0, 2.0), np.nextafter(1.0, 0.0), np.nextafter(0.0, 1.0), 2.2250738585072014e-308,
+        np.nextafter(2.2250738585072014e-308, 0.0), 2.0 ** 53, 2.0 ** 53 + 2.0, 1e22, 1e23, 0.1 + 0.2,
+        np.nextafter(1.7976931348623157e308, 0.0), -np.nextafter(0.0, 1.0)]
+SPECIAL = [0.0, -0.0, 5e-324, 1.7976931348623157e308, -1.7976931348623157e308, float("inf"), float("-inf"), float("nan"),
+           1e-300, 1e300, 0.1, 1 / 3] + [float(x) for x in _ULP]
+BAD_KINDS = ["shape", "ndim", "colvec", "scalar", "transposed", "emptylist"]
+
+
+def is_given(repo):
+    """does this way of passing repository_path designate the harness's repository (else: the default one)"""
+    return repo is True or repo == "kw"
 
 
 def lower_tr(tr):
@@ -77,48 +89,146 @@ def lower_tr(tr):
 # ---------------------------------------------------------------------------------------------
 def _num(rng):
     r = rng.random()
-    if r < 0.06:
+    if r < 0.08:
         return rng.choice(SPECIAL)
     if r < 0.16:
         return float(rng.randint(-5, 50))
-    return rng.uniform(0.1, 10.0) * 10.0 ** rng.randint(-25, 25)
+    if r < 0.26:
+        # a power of two times a short mantissa, over the whole exponent range (scale classes)
+        return rng.choice([1.0, 1.5, -1.25, 3.0]) * 2.0 ** rng.randint(-1060, 1020)
+    return rng.uniform(0.1, 10.0) * 10.0 ** rng.randint(-300, 300 if r < 0.4 else 25)
+
+
+def _size(rng, hi=4):
+    r = rng.random()
+    if r < 0.035:
+        return 0
+    if r < 0.25:
+        return 1
+    if r < 0.45:
+        return 2
+    if r < 0.93:
+        return rng.randint(3, hi)
+    return rng.randint(hi + 1, hi + 4)      # now and then a long table (re-written later by a short one)
 
 
 def _arr(rng, shape):
-    a = np.array([_num(rng) for _ in range(int(np.prod(shape)))], dtype=np.float64).reshape(shape)
+    with np.errstate(all="ignore"):
+        a = np.array([_num(rng) for _ in range(int(np.prod(shape)))], dtype=np.float64).reshape(shape)
     return a
 
 
-def _wrap(rng, a):
-    """the same numbers as list / tuple / ndarray / integer list (all accepted array-likes)"""
+def _form(rng, a, table_ndarray=False):
+    """one of the accepted array-like forms -> (what is handed over, the float64 array it denotes)"""
+    r = rng.random()
+    if table_ndarray and a.size == 0 and a.ndim > 1:
+        return a.copy(), a            # an empty table is only accepted as an ndarray (a nested list loses its shape)
+    if r < 0.25:
+        return a.tolist(), a
+    if r < 0.33:
+        def tup(x):
+            return tuple(tup(y) for y in x) if isinstance(x, list) else x
+        return tup(a.tolist()), a     # (nested) tuples
+    if r < 0.40:
+        b = np.repeat(a, 2, axis=0)[::2]          # non-contiguous view
+        return b, a
+    if r < 0.46 and a.ndim >= 2:
+        return np.asfortranarray(a), a
+    if r < 0.52:
+        b = a.copy()
+        b.flags.writeable = False
+        return b, a
+    if r < 0.58:
+        with np.errstate(all="ignore"):
+            b = a.astype(np.float32)              # float32 input: the values are its exact widenings
+        return b, b.astype(np.float64)
+    if r < 0.63:
+        b = (np.abs(np.nan_to_num(a, nan=0.0, posinf=7.0, neginf=3.0)) % 1000).astype(rng.choice([np.int64, np.int32, np.int16, np.uint8]))
+        return (b if rng.random() < 0.5 else b.tolist()), b.astype(np.float64)
+    if r < 0.66:
+        b = np.nan_to_num(a, nan=1.0) > 1.0       # bool arrays
+        return b, b.astype(np.float64)
+    return a.copy(), a
+
+
+def _scalar_form(rng, v):
     r = rng.random()
     if r < 0.4:
-        return a.tolist()
-    if r < 0.5 and a.ndim == 1:
-        return tuple(a.tolist())
-    return a.copy()
+        return float(v), np.float64(v)
+    if r < 0.6:
+        return np.float64(v), np.float64(v)
+    if r < 0.7:
+        with np.errstate(all="ignore"):
+            f = np.float32(v)
+        return f, np.float64(f)
+    if r < 0.8:
+        k = int(abs(np.nan_to_num(v, nan=0.0, posinf=7.0, neginf=3.0)) % 1000)
+        return rng.choice([k, np.int64(k)]), np.float64(k)
+    if r < 0.85:
+        return bool(v > 1), np.float64(bool(v > 1))
+    return np.array(v), np.float64(v)             # 0-d array: float() accepts it
 
 
 def canon(d):
-    """canonical bit-for-bit form of a rate as read back / as written"""
+    """canonical bit-for-bit form of a rate as read back / as written (an array without elements has no shape to keep:
+    JSON stores a (0, m) table as [])"""
+    def one(v):
+        a = np.asarray(v, np.float64)
+        return ((0,) if a.size == 0 else a.shape, a.tobytes())
     if not isinstance(d, dict):
-        return (("w", (), np.asarray(float(d), np.float64).tobytes()),)
-    return tuple(sorted((k, np.asarray(v, np.float64).shape, np.asarray(v, np.float64).tobytes()) for k, v in d.items()))
+        return (("w",) + one(float(d)),)
+    return tuple(sorted((k,) + one(v) for k, v in d.items()))
 
 
-def gen_leaf(kind, seed, bad, install=None):
+def _spoil(rng, bad, give, exp, vectors, table, dims):
+    """make the data of a leaf invalid in the requested way (a class the function's checks must reject)"""
+    vec = rng.choice(vectors)
+    base = np.asarray(exp[vec], np.float64)
+    if bad == "ndim":
+        give[vec] = [base.tolist()]                         # shape (1, n)
+    elif bad == "colvec":
+        give[vec] = base.reshape(-1, 1) if base.size else np.zeros((0, 1))   # shape (n, 1)
+    elif bad == "scalar":
+        give[vec] = rng.choice([5.0, np.float64(2.5), np.array(3.0)])        # 0-d
+    elif bad == "transposed" and table is not None and len(set(dims)) > 1 and 0 not in dims:
+        t = np.asarray(exp[table], np.float64)
+        perm = list(range(t.ndim))
+        while tuple(np.transpose(t, perm).shape) == t.shape:
+            rng.shuffle(perm)
+        give[table] = np.transpose(t, perm).copy()          # right number of entries, axes in another order
+    elif bad == "emptylist" and table is not None:
+        give[vectors[0]] = []
+        give[table] = []                                    # nested list form of an empty table: shape (0,)
+    else:   # "shape"
+        if table is not None and rng.random() < 0.6:
+            give[table] = np.zeros(tuple(x + 1 for x in dims)).tolist()
+        else:
+            give[vec] = base.tolist() + [1.0]
+            if table is None or len(dims) == 0:
+                pass
+
+
+def gen_leaf(kind, leaf, install=None):
     """-> (data handed to the implementation, canonical expected read or None when the leaf is invalid)"""
+    seed, bad = leaf["seed"], leaf.get("bad")
+    if "value" in leaf:
+        return leaf["value"], canon(float(leaf["value"]))
     rng = random.Random(seed)
-    n, m, k = rng.randint(1, 4), rng.randint(1, 4), rng.randint(1, 3)
+    n, m, k = _size(rng), _size(rng), _size(rng, 3)
     if kind == "wvl":
-        w = rng.choice([rng.uniform(1, 2000), float(rng.randint(1, 2000)), rng.randint(1, 2000), np.float64(rng.uniform(1, 2000))])
-        return w, canon(float(w))
+        w0 = rng.choice([rng.uniform(1, 2000), float(rng.randint(1, 2000)), rng.uniform(1e-3, 1e5), np.nextafter(656.279, 1000.0)])
+        w, wexp = _scalar_form(rng, w0)
+        if rng.random() < 0.1:
+            w, wexp = repr(float(w0)), np.float64(w0)        # float() also accepts the text of a number
+        return w, canon(float(wexp))
     if kind in ("adf11", "pec", "pectcx"):
         ne, te = _arr(rng, (n,)), _arr(rng, (m,))
         td = _arr(rng, (k,))
         shape = (n, m, k) if kind == "pectcx" else (n, m)
         if install == "adf15tcx":
             # parsed ADF15 CHEXC block: 2-D; install.py makes it 3-D over td = [0.01, 10000]
+            n, m = max(n, 1), max(m, 1)
+            ne, te = _arr(rng, (n,)), _arr(rng, (m,))
             rate2 = _arr(rng, (n, m))
             data3 = np.empty((n, m, 2))
             data3[:, :, :] = rate2[:, :, None]
@@ -128,57 +238,54 @@ def gen_leaf(kind, seed, bad, install=None):
         if install in ("adf11",):
             # parsed ADF11: log10 values in ADAS units; install.py converts them
             from cherab.core.utility import PerCm3ToPerM3, Cm3ToM3
+            n, m = max(n, 1), max(m, 1)
             ne, te, rate = (np.array([rng.uniform(-3, 3) for _ in range(n)]), np.array([rng.uniform(-3, 3) for _ in range(m)]),
                             np.array([rng.uniform(-3, 3) for _ in range(n * m)]).reshape(n, m))
             exp = {"ne": PerCm3ToPerM3.to(10 ** ne), "te": 10 ** te, "rate": Cm3ToM3.to(10 ** rate)}
-            if bad == "shape":
-                rate = rate[:, :-1] if m > 1 else np.concatenate([rate, rate], axis=1)
-            elif bad == "ndim":
+            if bad == "ndim":
                 ne = ne.reshape(1, n)
+            elif bad:
+                rate = rate[:, :-1] if m > 1 else np.concatenate([rate, rate], axis=1)
             return {"ne": ne, "te": te, "rates": rate}, (None if bad else canon(exp))
-        exp = {"ne": ne, "te": te, "rate": rate}
+        base = {"ne": ne, "te": te, "rate": rate}
         if kind == "pectcx":
-            exp["td"] = td
-        give = {key: _wrap(rng, v) for key, v in exp.items()}
-        if install == "adf15":
-            give = {key: v.copy() for key, v in exp.items()}
-        if bad == "shape":
-            give["rate"] = np.zeros(tuple(s + 1 for s in shape)).tolist()
-        elif bad == "ndim":
-            which = rng.choice(["ne", "te"] + (["td"] if kind == "pectcx" else []))
-            give[which] = [np.asarray(exp[which]).tolist()]
+            base["td"] = td
+        give, exp = {}, {}
+        for key, v in base.items():
+            if install == "adf15":
+                give[key], exp[key] = v.copy(), v            # the parser returns ndarrays
+            else:
+                give[key], exp[key] = _form(rng, v, table_ndarray=(key == "rate"))
+        if bad:
+            _spoil(rng, bad, give, exp, ["ne", "te"] + (["td"] if kind == "pectcx" else []), "rate", shape)
         if kind == "adf11":
             give["rates"] = give.pop("rate")
         return give, (None if bad else canon(exp))
     if kind == "bcx":
-        exp = {}
+        give, exp = {}, {}
         for x, y in (("eb", "qeb"), ("ti", "qti"), ("ni", "qni"), ("z", "qz"), ("b", "qb")):
-            ln = rng.randint(1, 4)
-            exp[x], exp[y] = _arr(rng, (ln,)), _arr(rng, (ln,))
-        exp["qref"] = np.float64(_num(rng))
-        give = {key: (_wrap(rng, v) if key != "qref" else float(v)) for key, v in exp.items()}
+            ln = _size(rng)
+            for key in (x, y):
+                give[key], exp[key] = _form(rng, _arr(rng, (ln,)))
+        give["qref"], exp["qref"] = _scalar_form(rng, _num(rng))
         if install == "adf12":
             give.update({"ebref": 1.0, "tiref": 2.0, "niref": 3.0, "zref": 4.0, "bref": 5.0})   # ignored by the repository
-        if bad == "shape":
-            y = rng.choice(["qeb", "qti", "qni", "qz", "qb"])
-            give[y] = np.asarray(exp[y]).tolist() + [1.0]
-        elif bad == "ndim":
-            x = rng.choice(["eb", "ti", "ni", "z", "b"])
-            give[x] = [np.asarray(exp[x]).tolist()]
+        if bad:
+            _spoil(rng, bad if bad in ("ndim", "colvec", "scalar") else "shape", give, exp,
+                   [rng.choice(["eb", "ti", "ni", "z", "b", "qeb", "qti", "qni", "qz", "qb"])], None, ())
         return give, (None if bad else canon(exp))
     if kind == "beam":
-        exp = {"e": _arr(rng, (n,)), "n": _arr(rng, (m,)), "t": _arr(rng, (k,)), "sen": _arr(rng, (n, m)), "st": _arr(rng, (k,))}
+        base = {"e": _arr(rng, (n,)), "n": _arr(rng, (m,)), "t": _arr(rng, (k,)), "sen": _arr(rng, (n, m)), "st": _arr(rng, (k,))}
+        give, exp = {}, {}
+        for key, v in base.items():
+            give[key], exp[key] = _form(rng, v, table_ndarray=(key == "sen"))
         for r in ("eref", "nref", "tref", "sref"):
-            exp[r] = np.float64(_num(rng))
-        give = {key: (_wrap(rng, v) if key[-3:] != "ref" else rng.choice([float(v), np.float64(v)])) for key, v in exp.items()}
-        if bad == "shape":
-            if rng.random() < 0.5:
-                give["sen"] = np.zeros((n + 1, m)).tolist()
+            give[r], exp[r] = _scalar_form(rng, _num(rng))
+        if bad:
+            if bad in ("shape", "transposed", "emptylist") and rng.random() < 0.35:
+                give["st"] = np.asarray(exp["st"]).tolist() + [2.0]       # t.shape != st.shape
             else:
-                give["st"] = np.asarray(exp["st"]).tolist() + [2.0]
-        elif bad == "ndim":
-            which = rng.choice(["e", "n", "t"])
-            give[which] = [np.asarray(exp[which]).tolist()]
+                _spoil(rng, bad, give, exp, ["e", "n"] if bad in ("shape", "emptylist") else ["e", "n", "t"], "sen", (n, m))
         return give, (None if bad else canon(exp))
     raise ValueError(kind)
 
@@ -203,7 +310,18 @@ class World:
         from cherab.core.atomic import elements
         from cherab.core.utility import RecursiveDict
         self.repository, self.install, self.RecursiveDict = repository, install, RecursiveDict
-        self.sp = {n: getattr(elements, n) for n in SPECIES_NAMES}
+        from cherab.core.atomic import Element
+        self.sp = {}
+        for n in dir(elements):
+            o = getattr(elements, n)
+            if isinstance(o, Element):
+                self.sp[n] = o
+                ZNUM.setdefault(n, int(o.atomic_number))
+                SYM.setdefault(n, o.symbol)
+        self.name_of = {}
+        for n, o in self.sp.items():
+            self.name_of.setdefault(id(o), n)
+        self.npkeys = False
         self.scratch = scratch
         self.repo = os.path.join(scratch, "c06", "repo")
         self.adas = os.path.join(scratch, "c06", "adas")
@@ -219,12 +337,39 @@ class World:
         # the ADF parsers are property C08's subject: the front ends are fed through stubs
         for name in ("parse_adf11", "parse_adf12", "parse_adf21", "parse_adf22bmp", "parse_adf22bme", "parse_adf15"):
             assert hasattr(install, name), name
-            setattr(install, name, self._stub)
+            setattr(install, name, (lambda nm: (lambda *a, **k: self._stub(nm, *a, **k)))(name))
+        self.auto = False
 
-    def _stub(self, *args, **kw):
+    def _stub(self, parser, *args, **kw):
+        if self.auto:
+            # populate(): the data of a file is a function of the parser's arguments (see auto_call)
+            return self.auto_parsed(parser, args)
         p, self.parsed = self.parsed, None
         assert p is not None
         return p
+
+    def auto_parsed(self, parser, args):
+        nm = lambda o: self.name_of[id(o)]       # noqa: E731
+        path = os.path.relpath(args[-1], self.adas)
+        if parser == "parse_adf11":
+            return self.to_dict(auto_tree("adf11", (nm(args[0]),), path), ["sp", "q"], "adf11", install="adf11", recursive=True)
+        if parser == "parse_adf12":
+            t = auto_tree("adf12", (nm(args[0]), args[1], nm(args[2]), args[3]), path)
+            return self.to_dict(t, LEVELS["bcx"], "bcx", install="adf12", recursive=True)
+        if parser == "parse_adf15":
+            t = auto_tree("adf15", (nm(args[0]), int(args[1])), path)
+            rates = self.RecursiveDict()
+            for cls, key, ik in (("excitation", "exc", "adf15"), ("recombination", "rec", "adf15"), ("thermalcx", "tcx", "adf15tcx")):
+                if t[key]:
+                    rates[cls] = self.to_dict(t[key], ["sp", "q", "tr"], "pec", install=ik, recursive=True)
+            return rates, self.to_dict(t["wvl"], ["sp", "q", "tr"], "wvl", recursive=True)
+        if parser == "parse_adf21":
+            return self.to_dict(auto_tree("adf21", (nm(args[0]), nm(args[1]), args[2]), path), LEVELS["bstop"], "beam", recursive=True)
+        if parser == "parse_adf22bmp":
+            return self.to_dict(auto_tree("adf22bmp", (nm(args[0]), args[1], nm(args[2]), args[3]), path), LEVELS["bpop"], "beam", recursive=True)
+        if parser == "parse_adf22bme":
+            return self.to_dict(auto_tree("adf22bme", (nm(args[0]), nm(args[1]), args[2], tuple(args[3])), path), LEVELS["bem"], "beam", recursive=True)
+        raise AssertionError(parser)
 
     def reset(self):
         shutil.rmtree(os.path.join(self.scratch, "c06", "repo"), ignore_errors=True)
@@ -233,17 +378,36 @@ class World:
     def root(self, given):
         return self.repo if given else None
 
+    def path_args(self, repo):
+        """the ways of passing repository_path: positional, keyword, omitted, explicit None, the default path spelled out"""
+        if repo is True:
+            return (self.repo,), {}
+        if repo == "kw":
+            return (), {"repository_path": self.repo}
+        if repo == "none_kw":
+            return (), {"repository_path": None}
+        if repo == "default_explicit":
+            return (self.repository.DEFAULT_REPOSITORY_PATH,), {}
+        assert repo is False, repo
+        return (), {}
+
     # ---- keys --------------------------------------------------------------------------------
     def real_key(self, kind, key):
         if kind == "sp":
             return self.sp[key]
         if kind == "tr":
+            if self.npkeys:
+                return tuple((np.int64(x) if i == 0 else np.int32(x)) if isinstance(x, int) else x for i, x in enumerate(key))
             return tuple(key)
+        if self.npkeys and isinstance(key, int) and (kind == "q" or (kind == "m" and self.npfam == "bpop")):
+            # numpy integers as charges (and as the metastable that only goes into a file name); a numpy-integer
+            # metastable of beam CX is the subject of the known-finding probe, not of the histories
+            return np.int64(key) if key % 2 == 0 else np.int32(key)
         return key
 
     def to_dict(self, tree, levels, kind, install=None, recursive=False):
         if not levels:
-            return gen_leaf(kind, tree["seed"], tree["bad"], install)[0]
+            return gen_leaf(kind, tree, install)[0]
         d = self.RecursiveDict() if recursive else {}
         for key, sub in tree:
             d[self.real_key(levels[0], key)] = self.to_dict(sub, levels[1:], kind, install, recursive)
@@ -253,12 +417,13 @@ class World:
     def run_call(self, c):
         """-> outcome code: 0 returned, 1 ValueError, 2 anything else (text in self.last_exc)"""
         rep, fam, style = self.repository, c["fam"], c["style"]
-        path = self.root(c["repo"])
+        pos, kw = self.path_args(c["repo"])
         self.last_exc = None
+        self.npkeys, self.npfam = bool(c.get("npkeys")), fam
         try:
             if style == "update":
                 d = self.to_dict(c["tree"], LEVELS[fam], DATAKIND[fam], recursive=c.get("recursive", False))
-                getattr(rep, UPDATE_FN[fam])(d, path)
+                getattr(rep, UPDATE_FN[fam])(d, *pos, **kw)
             elif style == "add":
                 (keys, leaf), = walk(c["tree"], len(LEVELS[fam]) - (1 if fam == "tcx" else 0))
                 args = [self.real_key(k, v) for k, v in zip(LEVELS[fam], keys)]
@@ -267,7 +432,7 @@ class World:
                     data = self.to_dict(leaf, ["q"], "adf11")
                     fn = ADD_FN[fam]
                 else:
-                    data = gen_leaf(DATAKIND[fam], leaf["seed"], leaf["bad"])[0]
+                    data = gen_leaf(DATAKIND[fam], leaf)[0]
                     fn = ADD_FN.get(fam)
                 if fam == "pec":
                     fn = ADD_FN["pec:" + args[0]]
@@ -275,9 +440,12 @@ class World:
                 if fam == "bcx":     # (donor, donor_metastable, receiver, receiver_charge, transition, rate)
                     d, r, q, tr, m = args
                     args = [d, m, r, q, tr]
-                getattr(rep, fn)(*args, data, path)
+                getattr(rep, fn)(*args, data, *pos, **kw)
             elif style == "install":
-                self._install(c, path)
+                ikw = dict(kw)
+                if pos:
+                    ikw["repository_path"] = pos[0]
+                self._install(c, ikw)
             else:
                 raise AssertionError(style)
         except ValueError as e:
@@ -286,24 +454,27 @@ class World:
         except Exception as e:      # noqa: BLE001 - reported, never swallowed: code 2 is a disagreement
             self.last_exc = repr(e)
             return 2
+        finally:
+            self.npkeys = False
         return 0
 
-    def _install(self, c, path):
+    def _install(self, c, path_kw):
         inst, kind = self.install, c["install"]
-        kw = dict(download=False, repository_path=path, adas_path=self.adas)
+        kw = dict(download=False, adas_path=self.adas, **path_kw)
+        K = lambda x: self.real_key("q", x)       # noqa: E731
         if kind in ADF11_SHIFT:
             fam = INSTALL[kind]
             if kind == "adf11ccd":
                 ((d, dq, r), _), = walk(c["tree"], 3)
                 parsed = self.to_dict(c["tree"][0][1][0][1], ["sp", "q"], "adf11", install="adf11", recursive=True)
-                args = (self.sp[d], dq, self.sp[r], "f.dat")
+                args = (self.sp[d], K(dq), self.sp[r], c.get("file", "f.dat"))
             else:
                 parsed = self.to_dict(c["parsed"], ["sp", "q"], "adf11", install="adf11", recursive=True)
-                args = (self.sp[c["parsed"][0][0]], "f.dat")
+                args = (self.sp[c["parsed"][0][0]], c.get("file", "f.dat"))
         elif kind == "adf12":
             parsed = self.to_dict(c["tree"], LEVELS["bcx"], "bcx", install="adf12", recursive=True)
             ((d, r, q, tr, m), _) = walk(c["tree"], 5)[0]
-            args = (self.sp[d], m, self.sp[r], q, "f.dat")
+            args = (self.sp[d], m, self.sp[r], K(q), c.get("file", "f.dat"))
         elif kind == "adf15":
             rates = self.RecursiveDict()
             for cls, key, inst_kind in (("excitation", "exc", "adf15"), ("recombination", "rec", "adf15"), ("thermalcx", "tcx", "adf15tcx")):
@@ -311,19 +482,19 @@ class World:
                     rates[cls] = self.to_dict(c[key], ["sp", "q", "tr"], "pec", install=inst_kind, recursive=True)
             wl = self.to_dict(c["wvl"], ["sp", "q", "tr"], "wvl", recursive=True)
             parsed = (rates, wl)
-            args = (self.sp[c["element"]], c["charge"], "f.dat")
+            args = (self.sp[c["element"]], K(c["charge"]), c.get("file", "f.dat"))
         elif kind == "adf21":
             parsed = self.to_dict(c["tree"], LEVELS["bstop"], "beam", recursive=True)
             ((b, t, q), _) = walk(c["tree"], 3)[0]
-            args = (self.sp[b], self.sp[t], q, "f.dat")
+            args = (self.sp[b], self.sp[t], K(q), c.get("file", "f.dat"))
         elif kind == "adf22bmp":
             parsed = self.to_dict(c["tree"], LEVELS["bpop"], "beam", recursive=True)
             ((b, m, t, q), _) = walk(c["tree"], 4)[0]
-            args = (self.sp[b], m, self.sp[t], q, "f.dat")
+            args = (self.sp[b], m, self.sp[t], K(q), c.get("file", "f.dat"))
         elif kind == "adf22bme":
             parsed = self.to_dict(c["tree"], LEVELS["bem"], "beam", recursive=True)
             ((b, t, q, tr), _) = walk(c["tree"], 4)[0]
-            args = (self.sp[b], self.sp[t], q, tuple(tr), "f.dat")
+            args = (self.sp[b], self.sp[t], K(q), self.real_key("tr", tr), c.get("file", "f.dat"))
         else:
             raise AssertionError(kind)
         self.parsed = parsed
@@ -377,6 +548,183 @@ class World:
 
 
 # ---------------------------------------------------------------------------------------------
+# create.populate(): the stock configuration, executed in one go and as the individual installs it stands for
+# ---------------------------------------------------------------------------------------------
+def _hseed(path, tag):
+    import hashlib
+    return int(hashlib.sha256((path + "|" + tag).encode()).hexdigest()[:12], 16)
+
+
+def auto_tree(kind, a, path):
+    """the parsed content of the ADAS file `path` as the stub parsers invent it: a function of the parser's arguments"""
+    lf = lambda tag: {"seed": _hseed(path, tag), "bad": None}      # noqa: E731
+    if kind == "adf11":
+        s = a[0]
+        return [[s, [[q, lf("q%d" % q)] for q in ([1, 2] if ZNUM[s] >= 2 else [1])]]]
+    if kind == "adf12":
+        d, m, r, q = a
+        return [[d, [[r, [[q, [[list(t), [[m, lf("t%d" % i)]]] for i, t in enumerate([(8, 7), (9, 8)])]]]]]]]
+    if kind == "adf15":
+        s, q = a
+        mk = lambda tag, trs: [[s, [[q, [[list(t), lf(tag + str(i))] for i, t in enumerate(trs)]]]]]     # noqa: E731
+        return {"exc": mk("e", [(3, 2), (4, 2)]), "rec": mk("r", [(3, 2)]),
+                "tcx": mk("c", [(4, 3)]) if q + 1 <= ZNUM[s] else [], "wvl": mk("w", [(3, 2), (4, 2)])}
+    if kind == "adf21":
+        b, t, q = a
+        return [[b, [[t, [[q, lf("s")]]]]]]
+    if kind == "adf22bmp":
+        b, m, t, q = a
+        return [[b, [[m, [[t, [[q, lf("p")]]]]]]]]
+    if kind == "adf22bme":
+        b, t, q, tr = a
+        return [[b, [[t, [[q, [[list(tr), lf("e")]]]]]]]]
+    raise AssertionError(kind)
+
+
+def auto_call(w, kind, args):
+    """the install call one entry of an install_files configuration stands for"""
+    nm = lambda o: w.name_of[id(o)]       # noqa: E731
+    path = args[-1]
+    c = {"style": "install", "install": kind, "fam": INSTALL[kind], "repo": True, "via_files": None, "file": path}
+    if kind in ADF11_SHIFT and kind != "adf11ccd":
+        c["parsed"] = auto_tree("adf11", (nm(args[0]),), path)
+    elif kind == "adf11ccd":
+        c["tree"] = [[nm(args[0]), [[int(args[1]), auto_tree("adf11", (nm(args[2]),), path)]]]]
+    elif kind == "adf12":
+        c["tree"] = auto_tree("adf12", (nm(args[0]), args[1], nm(args[2]), args[3]), path)
+    elif kind == "adf15":
+        c.update(auto_tree("adf15", (nm(args[0]), int(args[1])), path))
+        c["element"], c["charge"] = nm(args[0]), int(args[1])
+    elif kind == "adf21":
+        c["tree"] = auto_tree("adf21", (nm(args[0]), nm(args[1]), args[2]), path)
+    elif kind == "adf22bmp":
+        c["tree"] = auto_tree("adf22bmp", (nm(args[0]), args[1], nm(args[2]), args[3]), path)
+    elif kind == "adf22bme":
+        c["tree"] = auto_tree("adf22bme", (nm(args[0]), nm(args[1]), args[2], tuple(args[3])), path)
+    return c
+
+
+def populate_stage(ctx, w, rng, cap):
+    """repository.create.populate is run once with a repository path and once without; the configuration it hands
+    to install_files and the wavelength table it writes are captured, turned into the history of individual calls
+    they stand for (which goes through the correspondence like any other history), and the two repositories must
+    be read identically.  -> (history, queries, check function to call after the history has been executed)"""
+    import contextlib
+    import io
+    import cherab.openadas.repository.create as create
+    cap_cfg = {}
+    real_files, real_wvl = create.install_files, w.repository.update_wavelengths
+
+    def spy_files(configuration, **kw):
+        cap_cfg["config"] = {k: [tuple(a) for a in v] for k, v in configuration.items()}
+        for entries in configuration.values():
+            for a in entries:
+                f = os.path.join(w.adas, a[-1])
+                os.makedirs(os.path.dirname(f), exist_ok=True)
+                open(f, "w").write("stub\n")
+        return real_files(configuration, **kw)
+
+    def spy_wvl(wavelengths, *a, **kw):
+        cap_cfg["wvl"] = [[w.name_of[id(el)], [[int(q), [[list(t), {"seed": 0, "bad": None, "value": float(v)}] for t, v in trs.items()]]
+                                              for q, trs in qs.items()]] for el, qs in wavelengths.items()]
+        return real_wvl(wavelengths, *a, **kw)
+
+    def run_populate(**kw):
+        w.reset()
+        w.auto = True
+        create.install_files, w.repository.update_wavelengths = spy_files, spy_wvl
+        try:
+            with contextlib.redirect_stdout(io.StringIO()):
+                create.populate(download=False, adas_path=w.adas, **kw)
+        finally:
+            w.auto = False
+            create.install_files, w.repository.update_wavelengths = real_files, real_wvl
+
+    run_populate()                                   # no repository_path: everything under the default root
+    listing_default = w.listing()
+    run_populate(repository_path=w.repo)
+    listing_given = w.listing()
+    calls = [auto_call(w, kind.lower(), a) for kind, entries in cap_cfg["config"].items() for a in entries]
+    calls.append({"style": "update", "fam": "wvl", "repo": "kw", "recursive": True, "tree": cap_cfg["wvl"]})
+    names = sorted({k for c in calls for _, _, keys, _, _ in call_leaves(c) for k in keys if isinstance(k, str) and k in ZNUM})
+    h = {"universe": {"sp": names[:6], "tr": [[3, 2], [4, 2], [8, 7]], "q": [0, 1], "m": [1, 2]}, "calls": calls,
+         "origin": "create.populate"}
+    queries = queries_for(h, rng, cap)
+    reads_pop = [w.read(q) for q in queries]
+    h["queries"] = queries
+
+    def after_individual():
+        """called right after the history of individual installs has been executed (its repository is still on disk)"""
+        bad = []
+        reads_ind = [w.read(q) for q in queries]
+        for q, a, b in zip(queries, reads_pop, reads_ind):
+            if a != b:
+                bad.append({"claim": "populate() and the individual installs it stands for store different data", "query": q})
+        if w.listing() != listing_given:
+            bad.append({"claim": "populate() and the individual installs it stands for create different files",
+                        "only_populate": [f for f in listing_given if f not in w.listing()][:5],
+                        "only_individual": [f for f in w.listing() if f not in listing_given][:5]})
+        want_default = sorted(["~", ".cherab", "openadas", "repository"] + f[1:] for f in listing_given)
+        if listing_default != want_default:
+            bad.append({"claim": "file outside the repository path that was passed",
+                        "detail": "populate() without repository_path", "unexpected": [f for f in listing_default if f not in want_default][:5],
+                        "missing": [f for f in want_default if f not in listing_default][:5]})
+        if any(f[0] != "repo" for f in listing_given):
+            bad.append({"claim": "file outside the repository path that was passed", "detail": "populate(repository_path=...)",
+                        "file": ["/".join(f) for f in listing_given if f[0] != "repo"][:5]})
+        return bad
+    return h, after_individual, {"entries": len(calls) - 1, "wavelengths": sum(1 for _ in walk(cap_cfg["wvl"], 3)),
+                                 "files": len(listing_given), "queries": len(queries)}
+
+
+def probe_rejected_after_open(w):
+    """calls that are rejected only when the content is serialised (after the file has been opened for writing): the
+    property demands that the keys stored before stay readable.  -> list of failing scenario descriptions"""
+    rep, P = w.repository, w.repo
+    D, C = w.sp["deuterium"], w.sp["carbon"]
+    out = []
+
+    def scenario(name, first, second, read, what):
+        w.reset()
+        a = first()
+        try:
+            second()
+            raised = None
+        except Exception as e:      # noqa: BLE001 - any rejection; recorded below
+            raised = repr(e)
+        try:
+            got = read()
+            ok = got == a
+            err = None
+        except Exception as e:      # noqa: BLE001 - recorded
+            ok, err = False, repr(e)
+        if raised is not None and not ok:
+            out.append({"scenario": name, "calls": what, "second_call_raised": raised, "read_of_the_key_stored_before": err or "different data"})
+
+    lA, lB = {"seed": 7001, "bad": None}, {"seed": 7002, "bad": None}
+    def bcx_first():
+        rep.add_beam_cx_rate(D, 0, C, 6, (8, 7), gen_leaf("bcx", lA)[0], P)
+        return gen_leaf("bcx", lA)[1]
+    def bcx_read():
+        return canon([r for m, r in rep.get_beam_cx_rates(D, C, 6, (8, 7), P) if m == 0][0])
+    scenario("bcx-numpy-int-metastable", bcx_first,
+             lambda: rep.add_beam_cx_rate(D, np.int64(1), C, 6, (8, 7), gen_leaf("bcx", lB)[0], P), bcx_read,
+             "add_beam_cx_rate(deuterium, 0, carbon, 6, (8, 7), A); add_beam_cx_rate(deuterium, numpy.int64(1), carbon, 6, (8, 7), B); "
+             "get_beam_cx_rates(deuterium, carbon, 6, (8, 7))")
+    for name, add, get, args in (("bstop-unserialisable-extra", rep.add_beam_stopping_rate, rep.get_beam_stopping_rate, (D, C, 6)),
+                                 ("bpop-unserialisable-extra", rep.add_beam_population_rate, rep.get_beam_population_rate, (D, 1, C, 6))):
+        def first(add=add, args=args):
+            add(*args, gen_leaf("beam", lA)[0], P)
+            return gen_leaf("beam", lA)[1]
+        scenario(name, first,
+                 lambda add=add, args=args: add(*args, dict(gen_leaf("beam", lB)[0], comment=np.array([1.0])), P),
+                 lambda get=get, args=args: canon(get(*args, P)),
+                 "%s(..., A); %s(..., B + {'comment': ndarray}); %s(...)" % (add.__name__, add.__name__, get.__name__))
+    w.reset()
+    return out
+
+
+# ---------------------------------------------------------------------------------------------
 # what a call is given: [(root, fam, keys, leaf, leaf is valid on its own)] in iteration order
 # ---------------------------------------------------------------------------------------------
 def call_leaves(c):
@@ -386,19 +734,19 @@ def call_leaves(c):
         fam = c["fam"]
         inst = None if c["style"] != "install" else ("adf11" if c["install"] == "adf11ccd" else c["install"])
         for keys, leaf in walk(c["tree"], len(LEVELS[fam])):
-            out.append((c["repo"], fam, keys, leaf, inst))
+            out.append((is_given(c["repo"]), fam, keys, leaf, inst))
     elif c["install"] in ADF11_SHIFT:
         fam, sh = c["fam"], ADF11_SHIFT[c["install"]]
         for (s, q), leaf in walk(c["parsed"], 2):
-            out.append((c["repo"], fam, (s, q + sh), leaf, "adf11"))
+            out.append((is_given(c["repo"]), fam, (s, q + sh), leaf, "adf11"))
     elif c["install"] == "adf15":
         for (s, q, tr), leaf in walk(c["tcx"], 3):
-            out.append((c["repo"], "pectcx", ("hydrogen", 0, s, q + 1, tr), leaf, "adf15tcx"))
+            out.append((is_given(c["repo"]), "pectcx", ("hydrogen", 0, s, q + 1, tr), leaf, "adf15tcx"))
         for cls, key in (("excitation", "exc"), ("recombination", "rec")):
             for (s, q, tr), leaf in walk(c[key], 3):
-                out.append((c["repo"], "pec", (cls, s, q, tr), leaf, "adf15"))
+                out.append((is_given(c["repo"]), "pec", (cls, s, q, tr), leaf, "adf15"))
         for (s, q, tr), leaf in walk(c["wvl"], 3):
-            out.append((c["repo"], "wvl", (s, q, tr), leaf, None))
+            out.append((is_given(c["repo"]), "wvl", (s, q, tr), leaf, None))
     return out
 
 
@@ -427,7 +775,7 @@ def groups_valid(c):
 
 
 def leaf_expected(fam, leaf, inst):
-    return gen_leaf(DATAKIND[fam], leaf["seed"], leaf["bad"], inst)[1]
+    return gen_leaf(DATAKIND[fam], leaf, inst)[1]
 
 
 def keys_valid(fam, keys):
@@ -459,7 +807,7 @@ class Gen:
 
     def leaf(self, bad_p):
         r = self.rng
-        bad = r.choice(["shape", "ndim"]) if r.random() < bad_p else None
+        bad = r.choice(BAD_KINDS) if r.random() < bad_p else None
         return {"seed": r.getrandbits(48), "bad": bad}
 
     def universe(self):
@@ -478,7 +826,7 @@ class Gen:
         # most histories concentrate on a few families (so that files are shared, re-written, and read by siblings)
         fams = list(LEVELS) if r.random() < 0.3 else r.sample(list(LEVELS), r.randint(2, 5))
         qs = [0, 1, 2] if r.random() < 0.5 else r.sample([0, 1, 2], 2)
-        return {"sp": sp, "tr": trs, "q": qs, "m": r.choice([[0, 1, 2], [0, 1]]), "fams": fams}
+        return {"sp": sp, "tr": trs, "q": qs, "m": r.choice([[0, 1, 2], [0, 1], [0, 9, 10, 11], [1, 10, 2]]), "fams": fams}
 
     def pick(self, u, kind, bad_key_p, used, fam=None, prefix=()):
         r = self.rng
@@ -486,8 +834,10 @@ class Gen:
             if kind == "sp":
                 k = r.choice(u["sp"])
             elif kind == "q":
+                sps0 = [p for p in prefix if isinstance(p, str) and p in ZNUM]
                 if r.random() < bad_key_p:
-                    k = r.choice([3, 7, 11])
+                    # mostly exactly one above the bound of the governing species
+                    k = (ZNUM[sps0[-1]] + 1) if sps0 and r.random() < 0.7 else r.choice([3, 7, 11, 12])
                 else:
                     # a charge the governing species (the nearest species to the left) accepts
                     sps = [p for p in prefix if isinstance(p, str) and p in ZNUM]
@@ -496,7 +846,10 @@ class Gen:
                         zmax -= 1            # valid_charge(donor, donor_charge + 1)
                     if fam == "tcx" and len(prefix) == 1:
                         zmax = 2             # the donor charge of thermal CX is not validated
-                    k = r.choice([q for q in u["q"] if q <= zmax] or [0])
+                    pool = [q for q in u["q"] if q <= zmax] or [0]
+                    if r.random() < 0.2 and zmax >= 0:
+                        pool = [zmax, max(zmax - 1, 0)]          # exactly the bound (9/10 for neon) and one below
+                    k = r.choice(pool)
             elif kind == "m":
                 k = r.choice(u["m"]) if r.random() > bad_key_p else -1
             elif kind == "tr":
@@ -531,7 +884,17 @@ class Gen:
 
     def call(self, u, mixed_roots):
         r = self.rng
-        repo = not (mixed_roots and r.random() < 0.35)
+        if mixed_roots and r.random() < 0.35:
+            repo = r.choice([False, False, "none_kw", "default_explicit"])
+        else:
+            repo = True if r.random() < 0.75 else "kw"
+        c = self.call0(u, repo)
+        if r.random() < 0.2:
+            c["npkeys"] = True
+        return c
+
+    def call0(self, u, repo):
+        r = self.rng
         x = r.random()
         fams = u.get("fams") or list(LEVELS)
         if x < 0.42:
@@ -591,11 +954,109 @@ class Gen:
         return c
 
     def history(self):
+        """base calls interleaved with calls derived from earlier ones: the same call again, the same keys with new
+        values, the same keys with one leaf or key made invalid followed by a valid re-write, alias re-spellings"""
         r = self.rng
         u = self.universe()
         mixed = r.random() < 0.3
         n = r.randint(4, 14 if self.quick else 30)
-        return {"universe": u, "calls": [self.call(u, mixed) for _ in range(n)]}
+        calls, derived = [], {}
+        while len(calls) < n:
+            if calls and r.random() < 0.3:
+                base = copy.deepcopy(r.choice(calls))
+                mode = r.choice(["repeat", "rewrite", "rewrite", "toggle", "toggle", "respell", "reroute"])
+                derived[mode] = derived.get(mode, 0) + 1
+                if mode == "repeat":
+                    calls.append(base)
+                elif mode == "rewrite":
+                    calls.append(reseed(base, r))
+                elif mode == "respell":
+                    calls.append(reseed(respell(base, r), r))
+                elif mode == "reroute":
+                    # the same dictionary through another way of passing the path / another key form
+                    b = reseed(base, r)
+                    if is_given(b["repo"]):
+                        b["repo"] = "kw" if b["repo"] is True else True
+                    b["npkeys"] = not b.get("npkeys")
+                    calls.append(b)
+                else:
+                    calls.append(spoil_call(copy.deepcopy(base), r))
+                    calls.append(reseed(base, r))
+            else:
+                calls.append(self.call(u, mixed))
+        return {"universe": u, "calls": calls, "derived": derived}
+
+
+def call_trees(c):
+    """(owner dict, key, levels) of every tree of a call"""
+    if c["style"] == "install" and c["install"] == "adf15":
+        return [(c, k, ["sp", "q", "tr"]) for k in ("tcx", "exc", "rec", "wvl")]
+    if c["style"] == "install" and c["install"] in ADF11_SHIFT and c["install"] != "adf11ccd":
+        return [(c, "parsed", ["sp", "q"])]
+    return [(c, "tree", LEVELS[c["fam"]])]
+
+
+def map_keys(tree, levels, fn):
+    """apply fn(kind, key) to every key; keys that become equal inside one dictionary are merged (first one kept)"""
+    if not levels:
+        return tree
+    out, seen = [], []
+    for key, sub in tree:
+        k2 = fn(levels[0], tuple(key) if isinstance(key, list) else key)
+        if k2 in seen:
+            continue
+        seen.append(k2)
+        out.append([list(k2) if isinstance(k2, tuple) else k2, map_keys(sub, levels[1:], fn)])
+    return out
+
+
+def reseed(c, rng):
+    """same keys, new valid values"""
+    for _, _, _, leaf, _ in call_leaves(c):
+        if "value" not in leaf:
+            leaf["seed"], leaf["bad"] = rng.getrandbits(48), None
+        leaf.pop("id", None)
+    return c
+
+
+def respell(c, rng):
+    """alias spellings of every transition: int <-> str, upper <-> lower case"""
+    def fn(kind, k):
+        if kind != "tr":
+            return k
+        def lv(x):
+            if isinstance(x, int):
+                return str(x)
+            return int(x) if x.isdigit() and rng.random() < 0.5 else (x.upper() if rng.random() < 0.5 else x.lower())
+        return (lv(k[0]), lv(k[1]))
+    for owner, key, levels in call_trees(c):
+        owner[key] = map_keys(owner[key], levels, fn)
+    return c
+
+
+def spoil_call(c, rng):
+    """make the call cross one of the guards: a leaf with invalid data, a charge above the bound, a negative metastable"""
+    leaves = [lf for _, fam, _, lf, inst in call_leaves(c) if fam != "wvl" and "value" not in lf and inst != "adf15tcx"]
+    kinds = {k for _, _, lv in call_trees(c) for k in lv}
+    if leaves and (rng.random() < 0.6 or not ({"q", "m"} & kinds)):
+        lf = rng.choice(leaves)
+        lf["bad"] = rng.choice(BAD_KINDS)
+        return c
+    target = rng.choice(sorted({"q", "m"} & kinds)) if ({"q", "m"} & kinds) else None
+    done = []
+    def fn(kind, k):
+        if kind == target and not done and rng.random() < 0.6:
+            done.append(1)
+            return 12 if kind == "q" else -1
+        return k
+    for owner, key, levels in call_trees(c):
+        owner[key] = map_keys(owner[key], levels, fn)
+    if c["style"] == "install" and c["install"] == "adf15":
+        # the element / charge arguments follow the (single) charge of its blocks
+        for k in ("exc", "rec", "tcx", "wvl"):
+            if c[k]:
+                c["charge"] = c[k][0][1][0][0]
+    return c
 
 
 def queries_for(h, rng, cap):
@@ -676,7 +1137,7 @@ def run_history(w, h, queries):
     cwd_before = set(os.listdir("."))
     for ci, c in enumerate(h["calls"]):
         oc = w.run_call(c)
-        roots_used.add(bool(c["repo"]))
+        roots_used.add(is_given(c["repo"]))
         reads = []
         for q in queries:
             cv = w.read(q)
@@ -767,8 +1228,10 @@ def c_tree(tree, levels):
     return "[" + "; ".join("(%s, %s)" % (c_key(levels[0], k), c_tree(sub, levels[1:])) for k, sub in tree) + "]"
 
 
-def c_repo(given):
-    return "(Some R)" if given else "None"
+def c_repo(repo):
+    if repo == "default_explicit":
+        return "(Some default_root)"
+    return "(Some R)" if is_given(repo) else "None"
 
 
 def c_call(c):
@@ -842,16 +1305,21 @@ HEADER = ("From Coq Require Import ZArith List String.\n"
 def classify(h):
     """distribution data of one history"""
     d = {"calls": len(h["calls"]), "styles": {}, "families": {}, "rejectable": 0, "default_root_calls": 0, "alias": 0,
-         "empty_group": 0}
+         "empty_group": 0, "npkeys": 0, "repo_forms": {}, "bad_kinds": {}, "derived": dict(h.get("derived", {}))}
     seen = {}
     for c in h["calls"]:
         d["styles"][c["style"]] = d["styles"].get(c["style"], 0) + 1
         name = c["install"] if c["style"] == "install" else c["fam"]
         d["families"][name] = d["families"].get(name, 0) + 1
+        d["npkeys"] += 1 if c.get("npkeys") else 0
+        d["repo_forms"][str(c["repo"])] = d["repo_forms"].get(str(c["repo"]), 0) + 1
         lv = call_leaves(c)
+        for _, _, _, lf, _ in lv:
+            if lf.get("bad"):
+                d["bad_kinds"][lf["bad"]] = d["bad_kinds"].get(lf["bad"], 0) + 1
         if any(lf["bad"] is not None or not keys_valid(fam, keys) for _, fam, keys, lf, _ in lv):
             d["rejectable"] += 1
-        if not c["repo"]:
+        if not is_given(c["repo"]):
             d["default_root_calls"] += 1
         if not lv:
             d["empty_group"] += 1
@@ -941,10 +1409,22 @@ def run(ctx):
         hist.append(g.history())
     cap = 50 if quick else 70
 
+    # ---- second-order entry points: create.populate; rejections after the file was opened -------------
+    pop_h, pop_after, pop_info = populate_stage(ctx, w, rng, cap)
+    if not ctx.replay:
+        hist.insert(0, pop_h)
+    probe = probe_rejected_after_open(w)
+    if probe:
+        ctx.violation("c06:truncated-by-rejected-write:" + "+".join(sorted(p["scenario"] for p in probe)),
+                      "a call rejected while its file is being written (TypeError from json.dump after open(path, 'w')) leaves the file "
+                      "truncated: keys stored before are no longer readable (JSONDecodeError)", {"scenarios": probe}, found=True)
+
     cases, all_fails, dist = [], [], []
     for hi, h in enumerate(hist):
-        queries = queries_for(h, rng, cap)
+        queries = h.get("queries") or queries_for(h, rng, cap)
         trace, files, fails = run_history(w, h, queries)
+        if h.get("origin") == "create.populate" and not fails:
+            fails = [dict(f, call_index=len(h["calls"]) - 1, call={"style": "populate", "fam": "create"}) for f in pop_after()]
         cases.append((hi, h, queries, trace, files))
         dist.append(classify(h))
         if hi and hi % 250 == 0:
@@ -1006,7 +1486,11 @@ def run(ctx):
 
     # ---- coverage ---------------------------------------------------------------------------------
     fam_tot, style_tot = {}, {}
+    extra_tot = {"repo_forms": {}, "bad_kinds": {}, "derived": {}}
     for d in dist:
+        for name in extra_tot:
+            for k, v in d[name].items():
+                extra_tot[name][k] = extra_tot[name].get(k, 0) + v
         for k, v in d["families"].items():
             fam_tot[k] = fam_tot.get(k, 0) + v
         for k, v in d["styles"].items():
@@ -1031,7 +1515,11 @@ def run(ctx):
                          "calls_without_repository_path": sum(d["default_root_calls"] for d in dist),
                          "alias_rewrites": sum(d["alias"] for d in dist), "overwrites": sum(d["overwrites"] for d in dist),
                          "calls_with_empty_dictionary": sum(d["empty_group"] for d in dist),
-                         "reads": sum(len(t) * len(q) for _, _, q, t, _ in cases), "registry_symbols": n_syms},
+                         "calls_with_numpy_integer_keys": sum(d["npkeys"] for d in dist),
+                         "repository_path_forms": extra_tot["repo_forms"], "invalid_leaf_kinds": extra_tot["bad_kinds"],
+                         "derived_calls(repeat/rewrite/toggle/respell/reroute)": extra_tot["derived"],
+                         "reads": sum(len(t) * len(q) for _, _, q, t, _ in cases), "registry_symbols": n_syms,
+                         "create.populate": pop_info, "rejected_after_open_probe": {"scenarios": 3, "failing": [p["scenario"] for p in probe]}},
         "tolerance": "none: values are compared bit for bit (float64 tobytes, shape, entry names); ids, outcomes and file sets exactly",
         "partial": ["install_* front ends are exercised from the parsed data on (stub parsers); the parsers are property C08",
                     "TypeError paths (non-Element arguments) and non-int metastables/charges are not modelled",
